@@ -284,6 +284,9 @@ static void run_history (FILE *out, char *script)
     char *save = NULL;
     int first = 1;
     int obj_rc[2] = { last_idn_rc, last_idn_rc };
+#ifdef HAVE_IDNKIT
+    verif_resconf_fail_next = 0;          /* an injected failure that no call consumed does not leak into the next history */
+#endif
     for (char *op = strtok_r (script, ";", &save); op; op = strtok_r (NULL, ";", &save)) {
         if (!first) fputc (';', out);
         first = 0;
@@ -296,7 +299,11 @@ static void run_history (FILE *out, char *script)
         case 'r': eav->rfc = (EAV_RFC) mode_rfc (atoi (op + 1)); fputc ('r', out); break;
         case 't': eav->tld_check = op[1] == '1'; fputc ('t', out); break;
         case 'k': eav->allow_tld = atoi (op + 1); fputc ('k', out); break;
-        case 's': fprintf (out, "s%d", eav_setup (eav)); break;
+        case 's': {
+            int src = eav_setup (eav);
+            if (src == -EEAV_IDN_ERROR) *g_msg_rc = 12;        /* the stand-in's failing idn_resconf_create: idn_result_tostring (12) */
+            fprintf (out, "s%d", src);
+        } break;
         case 'm': fputc ('m', out); putmsg (out, eav_errstr (eav)); break;
         case 'f': eav_free (eav); fputc ('f', out); break;
         case 'y':           /* idnkit: the next idn_resconf_create fails (no effect in the other back ends: they create nothing) */
